@@ -163,6 +163,7 @@ func guarded(e entry, in []byte, seconds int) (kind, digest string, nilOnErr boo
 	case r := <-ch:
 		return r.k, r.d, r.n
 	case <-time.After(time.Duration(seconds) * time.Second):
+		hangs++ // the exec loop cuts the run short after maxHangs
 		return "timeout", "", true
 	}
 }
